@@ -287,12 +287,12 @@ class GenericSpatialTransform(SequentialTransform):
             else:
                 _modules.update(modules)
                 modules = _modules
+        # Insert transformations in order of composition
+        super().__init__(grid, modules)
         # Set parameters of transformation if given as dictionary
         if isinstance(params, Mapping):
             for name, transform in self.named_transforms():
                 transform.data_(params[name])
-        # Insert transformations in order of composition
-        super().__init__(grid, modules)
         self.config = config
         self.params = params if callable(params) else None
 
